@@ -59,9 +59,9 @@ def oracle(ctx):
             few = any(len(cs) < ol + tl for cs, _ in contribs)
             if few != (case["impl"] == "none"):
                 ctx.oracle_fail(f"entities per id column {[len(cs) for cs, _ in contribs]}, intervals ({ol},{ou}) ({tl},{tu}): result {case['impl']}", case, "too-few")
-            if case["impl"] in ("none", "ERR impossible"):
+            if case["impl"] == "none" or case["impl"].startswith("ERR"):
                 if case["impl"] != "none":
-                    ctx.oracle_fail("count_multiple_contributions raised", case, "compact")
+                    ctx.oracle_fail(f"count_multiple_contributions raised ({case['impl']})", case, "compact")
                 return
             ap0 = AnonymizationParams(salt=case["salt"], outlier_count=FlatteningInterval(ol, ou), top_count=FlatteningInterval(tl, tu), layer_noise_sd=0.0)
             # noise-free part within the bounds (single id column, no id-less rows)
@@ -69,6 +69,8 @@ def oracle(ctx):
                 cs, un = contribs[0]
                 cs = dict(cs)
                 r0 = AS.py_cntm(A, ap0, case["bucket_seed"], [(cs, 0)])
+                if r0.startswith("ERR") or r0 == "none":
+                    ctx.oracle_fail(f"count_multiple_contributions failed on the noise-free variant ({r0})", case, "compact"); return
                 srt = sorted(cs.values(), reverse=True)
                 n = len(srt)
                 # compacted upper bounds per the property: ou' + tu' <= n with lower bounds kept
@@ -79,6 +81,8 @@ def oracle(ctx):
                     if not (lo - 0.5000001 <= int(r0) <= hi + 0.5000001):
                         ctx.oracle_fail(f"noise-free count {r0} outside [{lo},{hi}] for contributions {srt} intervals ({ol},{ou}) ({tl},{tu})", case, "bounds")
                     rU = AS.py_cntm(A, ap0, case["bucket_seed"], [(cs, un)])
+                    if rU.startswith("ERR") or rU == "none":
+                        ctx.oracle_fail(f"count_multiple_contributions failed with id-less rows ({rU})", case, "compact"); return
                     if not (int(r0) - 1 <= int(rU) <= int(r0) + un + 1):
                         ctx.oracle_fail(f"{un} id-less rows changed the noise-free count from {r0} to {rU}", case, "idless")
             # the headline clause: the `ol` heaviest entities contribute arbitrarily more rows -> released count unchanged (all rows carry ids)
